@@ -59,7 +59,10 @@ def tree_hash(repo):
 
 def ensure_driver():
     if os.path.exists(DRIVER):
-        return
+        src = os.path.join(VERIF, "driver", "src")
+        newest = max(os.path.getmtime(os.path.join(src, f)) for f in os.listdir(src))
+        if newest <= os.path.getmtime(DRIVER):
+            return
     r = sh("cargo +nightly build --release --offline", cwd=os.path.join(VERIF, "driver"),
            env=dict(os.environ, CARGO_NET_OFFLINE="true"))
     if r.returncode != 0 or not os.path.exists(DRIVER):
@@ -314,7 +317,7 @@ def body_hash(b):
 
     def strip_sp(x):
         if isinstance(x, dict):
-            return {k: strip_sp(v) for k, v in x.items() if k not in ("sp", "fsp")}
+            return {k: strip_sp(v) for k, v in x.items() if k not in ("sp", "fsp", "exp", "expc")}
         if isinstance(x, list):
             return [strip_sp(y) for y in x]
         return x
